@@ -21,6 +21,9 @@ PROPS = {
     "C09": {
         "design_ref": "DESIGN.md §3 C09",
         "tiers": {"quick": {"harness_timeout_s": 900}},
+        # harnesses with ~1 KiB of symbolic input: Kani cannot emit / parse a concrete test for them; a
+        # counterexample decided twice by the solver is reported with a solver-rerun replay file
+        "solver_rerun_ok": ["q09_transpose_ba64_64x64"],
         "expected_panics": {"q09_share_slice_partial_record_mustpanic": [r"assertion failed: from\.len\(\) %", r"Slice must be the same length as the array", r"assertion `left == right` failed"]},
         "functions_encoded": [
             "<T as ff::Serializable>::{serialize,deserialize} for T in Fp31, Fp32BitPrime, Fp61BitPrime, Boolean, Gf2..Gf40Bit, "
